@@ -47,6 +47,7 @@ M = {
  "twinness of the component": ("C02 C03 C04", "nsi_arenas_betweenness(stopping_mode='twinness') indexed the whole-network twinness matrix with component-local indices: isolated node 0 + path 1-2-3 gave [0, 1.2857, 0, 3.0]"),
  "zero-variance series with an inexact mean": ("C10", "CouplingAnalysis(d).cross_correlation(0,'all') with a column of seven 0.1: entries nan / inf instead of 0 (anomalies a non-zero constant, std 0, only NaN was reset)"),
  "quantile thresholds of narrow integer": ("C16", "make_event_matrix(int8 column [-84,-60,-44,116,98,122], 'quantile', 0.5, 'above') marked no event: np.quantile overflowed in int8 (threshold 155)"),
+ "wrappers reject matrices that are not N x N": ("C20 C18", "ResNetwork: res.adjacency = 12x12 matrix, then edge_current_flow_betweenness() / vertex_current_flow_betweenness(0) indexed the stored 5x5 admittance / R as 12x12 (values from foreign memory)"),
  "vanishing Fourier amplitudes": ("C15", "refined_AAFT_surrogates returned NaN rows when a Fourier coefficient of the iterate was exactly zero (e.g. [1,-1,2,-2,3,-3,0,0])"),
 }
 fixed = []
